@@ -136,6 +136,11 @@ def prop(case):
             # a conversion to GFA2 hands identifiers out to the links and containments which have none, in the
             # SOURCE Gfa (written there as ID tags): they are identifiers like any other - listed, found by lookup,
             # refused for further lines.  (Last step of a history: the generator cannot know the numbers.)
+            if not run.model.is_closed():
+                # (a path whose link is not there yet holds a placeholder link, which the conversion has to give an
+                #  identifier too: such names belong to no line of the text - the step is left out)
+                labels["converted"] = "skipped-open"
+                continue
             unnamed = []
             for rec in run.model.recs:
                 if rec.rt in "LC" and not rec.tag("ID"):
